@@ -413,3 +413,38 @@ func verifC01Core(c *verifCfg, li int, prevRaw []byte, oldSize uint64, nextRaw [
 		rt.Assert(okArgs, "C01/vc-args-and-verdict")
 	}
 }
+
+// VerifWorld is a symbolic witness deployment for harnesses in other packages.
+type VerifWorld struct {
+	W       *Witness
+	IDs     []string
+	Origins []string
+	Keys    []uint64
+	WKeys   []uint64
+	Stored  []bool
+	Prev    [][]byte
+	Store   persistence.LogStatePersistence
+	Logs    map[string]LogInfo
+	Signers []note.Signer
+}
+
+// VerifNewWorld builds configuration, store (Param "store"), witness and an arbitrary pre-state.
+func VerifNewWorld(nlogs, nsigners int) *VerifWorld {
+	rt.InstallMetrics()
+	c := verifConfig(nlogs, nsigners)
+	store := verifStore()
+	w, err := New(Opts{Persistence: store, Signers: c.signers, KnownLogs: c.logs})
+	if err != nil {
+		rt.Unsupported("New failed")
+	}
+	stored, prevs := verifPreload(store, c)
+	return &VerifWorld{W: w, IDs: c.ids, Origins: c.origins, Keys: c.keys, WKeys: c.wkeys, Stored: stored, Prev: prevs, Store: store, Logs: c.logs, Signers: c.signers}
+}
+
+// VerifProof returns an arbitrary proof of bounded length.
+func VerifProof(max int) [][]byte { return verifProof(max) }
+
+// VerifHonestProof exposes the reference prover to other packages.
+func VerifHonestProof(leaves [][]byte, m, n int) ([][]byte, error) {
+	return verifHonestProof(leaves, m, n)
+}
